@@ -176,7 +176,7 @@ func (r *Runner) VamanaPair(a, b *shard.Shard, p Prop, what string) {
 	if !ok {
 		return
 	}
-	r.TW.Emit("VamanaPair", M{"p": p.Name, "vec": avec, "limit": limit, "ss": ss, "a": ha, "b": hb, "what": what})
+	r.TW.Emit("VamanaPair", M{"p": p.Name, "vec": avec, "limit": limit, "ss": ss, "a": ha, "b": hb, "what": what, "tol": tolFor(p.Metric)})
 }
 
 // TextQuery issues one text search.
